@@ -1,7 +1,7 @@
 #!/bin/sh
 # tools/confirm_seed.sh <worktree> <seed-dir>   — independently confirm a seeded change:
 #   with the patch: crate builds, pinned suite result unchanged (12 / 98+mul_rk failing / 15), demo FAILS
-#   without it: demo PASSES.   Prints a one-line JSON verdict.
+#   without it: demo PASSES.   Prints a one-line JSON verdict. CONFIRM_FEATURES="--features dates" for demos behind a feature.
 wt="$1"; d="$(readlink -f "$2")"
 cd "$wt" || exit 2
 export CARGO_NET_OFFLINE=true
@@ -10,9 +10,9 @@ git checkout -q -- . ; git clean -fdq tests/ src/ 2>/dev/null
 demo=$(ls "$d" | grep -E '^demo.*\.rs$' | head -1)
 name="verif_demo"
 cp "$d/$demo" "tests/$name.rs"
-clean_demo=$(cargo test --offline --test $name 2>&1 | grep -E "^test result" | head -1)
+clean_demo=$(cargo test --offline $CONFIRM_FEATURES --test $name 2>&1 | grep -E "^test result" | head -1)
 git apply "$d/patch.diff" || { echo '{"ok":false,"why":"patch does not apply"}'; git checkout -q -- .; rm -f tests/$name.rs; exit 1; }
 suite=$(cargo test --offline --no-fail-fast 2>&1 | grep -E "^test result" | tr '\n' '|')
-mut_demo=$(cargo test --offline --test $name 2>&1 | grep -E "^test result" | head -1)
+mut_demo=$(cargo test --offline $CONFIRM_FEATURES --test $name 2>&1 | grep -E "^test result" | head -1)
 git checkout -q -- . ; rm -f tests/$name.rs
 echo "{\"clean_demo\":\"$clean_demo\",\"mut_demo\":\"$mut_demo\",\"suite_with_patch\":\"$suite\"}"
